@@ -74,7 +74,7 @@ TECMP::CanPayload::Header* TECMP::CanPayload::getHeader()
 
 uint32_t TECMP::CanPayload::getCrc() const
 {
-    if (payloadData.size() <= sizeof(Header) + getHeader()->getDlc())
+    if (payloadData.size() < sizeof(Header) + getHeader()->getDlc() + 3)
         return 0;
 
     uint32_t result = 0;
